@@ -315,7 +315,7 @@ Lemma ce_fields e s :
   luses s' = lu_rem e (luses s) /\ guses s' = gu_rem e (guses s).
 Proof.
   unfold check_explicit, lu_rem, gu_rem. destruct (is_def e); cbn [negb].
-  - destruct (mem e) as [|g n sc a m c|n sr a m]; cbn; [tauto| |tauto]. destruct g; tauto.
+  - destruct (mem e) as [|g n sc a m c|n sr a m el]; cbn; [tauto| |tauto]. destruct g; tauto.
   - cbn. tauto.
 Qed.
 
@@ -324,7 +324,7 @@ Lemma au_fields e s :
   in_slice s' = in_slice s /\ frames s' = frames s /\ sim s' = sim s /\
   luses s' = lu_add e (luses s) /\ guses s' = gu_add e (guses s).
 Proof.
-  unfold add_uses, lu_add, gu_add. destruct (mem e) as [|g n sc a m c|n sr a m]; cbn; [tauto| |tauto].
+  unfold add_uses, lu_add, gu_add. destruct (mem e) as [|g n sc a m c|n sr a m el]; cbn; [tauto| |tauto].
   destruct g; tauto.
 Qed.
 
@@ -365,7 +365,7 @@ Qed.
 Lemma ce_fires e s k : defs_key e k -> key_in k s -> fst (fst (check_explicit e s)) = true.
 Proof.
   intros [Hd Hk] Hin. unfold check_explicit. rewrite Hd. cbn [negb].
-  unfold key in Hk. destruct (mem e) as [|g n sc a m c|n sr a m]; try discriminate.
+  unfold key in Hk. destruct (mem e) as [|g n sc a m c|n sr a m el]; try discriminate.
   inversion Hk; subst k; clear Hk. unfold key_in in Hin. cbn [fst snd] in Hin.
   cbn [fst]. destruct g; rewrite Hin; reflexivity.
 Qed.
@@ -379,7 +379,7 @@ Proof.
   intros Hnd Hin. unfold key_in in Hin. unfold gu_rem, lu_rem, defs_key, key in *.
   destruct k as [[g n] sc]. cbn [fst snd] in *.
   destruct (is_def e); [|exact Hin].
-  destruct (mem e) as [|g' n' sc' a m c|n' sr a m]; try exact Hin.
+  destruct (mem e) as [|g' n' sc' a m c|n' sr a m el]; try exact Hin.
   destruct g, g'; try exact Hin.
   - apply memP_remP_keep; [|exact Hin]. intro E. inversion E; subst. apply Hnd. split; reflexivity.
   - apply memP_remP_keep; [|exact Hin]. intro E. inversion E; subst. apply Hnd. split; reflexivity.
@@ -391,7 +391,7 @@ Lemma add_keeps e (k : bool * Z * Z) lu gu :
    else memP (snd (fst k), snd k) (lu_add e lu)) = true.
 Proof.
   unfold gu_add, lu_add. destruct k as [[g n] sc]. cbn [fst snd].
-  destruct (mem e) as [|g' n' sc' a m c|n' sr a m]; try (intro H; exact H).
+  destruct (mem e) as [|g' n' sc' a m c|n' sr a m el]; try (intro H; exact H).
   destruct g, g'; intro H; try exact H; apply memP_addP_keep; exact H.
 Qed.
 
@@ -400,7 +400,7 @@ Lemma add_adds e k lu gu :
   (if fst (fst k) then memP (snd (fst k), snd k) (gu_add e gu)
    else memP (snd (fst k), snd k) (lu_add e lu)) = true.
 Proof.
-  unfold key, gu_add, lu_add. destruct (mem e) as [|g' n' sc' a m c|n' sr a m]; try discriminate.
+  unfold key, gu_add, lu_add. destruct (mem e) as [|g' n' sc' a m c|n' sr a m el]; try discriminate.
   intro H; inversion H; subst k; cbn [fst snd]. destruct g'; apply memP_addP_same.
 Qed.
 
@@ -823,7 +823,7 @@ Module Ex.
   Definition a_storeq := ins 2 1 0 true false (MVar false 21 4 200 true false).
   Definition a_loadq := ins 3 0 1 false true (MVar false 21 4 200 true false).
   Definition a_loadattr : einstr :=
-    mkI 4 4 0 2 4 false 1 1 false true false false false false true false false false false (MAttr 30 200 300 false).
+    mkI 4 4 0 2 4 false 1 1 false true false false false false true false false false false (MAttr 30 200 300 false false).
   Definition a_ret := ins 5 1 0 false false MNone.
   Definition aflow := [a_loadattr; a_loadq; a_storeq; a_loado].
 
